@@ -12,6 +12,7 @@
   `a`; `written a` = the application assigned `a` in this session.
 -/
 import PonyVerif.Lemmas.Occ
+import PonyVerif.Gen.OccTable
 namespace PonyVerif.Props.C20
 open PonyVerif.Model.Occ
 
@@ -200,6 +201,72 @@ theorem C20_picks_are_schedules (cfg : Cfg) (progs : Sid → List Action) (store
         | nil => intro σ; rfl
         | cons e l ihl => intro σ; obtain ⟨s', a'⟩ := e; simp only [List.cons_append, run]; exact ihl _
       rw [hrun, ← hs]; exact h
+
+/-! ### bridges: the model's per-attribute primitives compute the tables probed from the REAL code on this run
+  (`PonyVerif.Gen.OccTable` is regenerated by harness/gen_c20.py from /repo before every build; a source change that
+  alters how `__get__`, `__set__`, `_db_set_`, `_save_updated_`/`_update_dbvals_`, `_construct_optimistic_criteria_` treat an
+  attribute's read bit, write bit, `_vals_` or `_dbvals_` entry breaks the corresponding theorem) -/
+
+section Bridge
+open PonyVerif.Gen.OccTable
+
+def cfgProbe (vol opt sopt : Bool) : Cfg :=
+  { attrs := [0], lazy := fun _ => false, volatile := fun _ => vol, attrOpt := fun _ => opt, sessOpt := fun _ => sopt }
+
+def objProbe (r w : Bool) (vals dbvals : Option Val) : ObjSt :=
+  { present := true, status := .loaded, dbvals := fun _ => dbvals, vals := fun _ => vals, rbits := fun _ => r,
+    wbits := fun _ => w, obs := fun _ => none, written := fun _ => w }
+
+def modelGet (w vol : Bool) : Bool := ((objProbe false w (some 3) (some 3)).read (cfgProbe vol true true) 0).rbits 0
+
+def modelSet (r w : Bool) : Bool × Bool :=
+  let os := (objProbe r w (some 3) (some 3)).write 0 5
+  (os.rbits 0, os.wbits 0)
+
+def modelDbSet (loaded same r w : Bool) : Nat :=
+  let os := objProbe r w (if w then some 5 else if loaded then some 3 else none) (if loaded then some 3 else none)
+  let new : Val := if same then 3 else 7
+  match os.dbSet (fun _ => new) [0] with
+  | none => 0
+  | some os' => 1 + (if os'.dbvals 0 == some new then 2 else 0) + (if os'.vals 0 == some new then 1 else 0)
+
+def modelSave (r w vol : Bool) : Bool × Bool × Bool × Nat :=
+  let os := (objProbe r w (some (if w then 5 else 3)) (some 3)).afterSave (cfgProbe vol true true)
+  (os.rbits 0, os.wbits 0, (os.vals 0).isSome, match os.dbvals 0 with | none => 0 | some v => if w && v == 5 then 1 else 2)
+
+/-- the INTENDED meaning of the declaration: int → checked, float → not checked, `optimistic=` overrides -/
+def declaredOpt : Nat → Bool
+  | 0 => true | 1 => false | 2 => true | _ => false
+
+def modelCrit (kind : Nat) (r : Bool) : Bool :=
+  (optCols (cfgProbe false (declaredOpt kind) true) (objProbe r false (some 3) (some 3))).contains 0
+
+def modelExempt (sopt fu : Bool) : Bool :=
+  (critCols (cfgProbe false true sopt) 0 fu (objProbe true false (some 3) (some 3))).contains 0
+
+/-- `ObjSt.read` = the real `Attribute.__get__` on the read bit, for every (write bit, volatile) -/
+theorem C20_bridge_get : getRows.length = 4 ∧ ∀ p ∈ getRows, modelGet p.1.1 p.1.2 = p.2 := by decide
+
+/-- `ObjSt.write` = the real `Attribute.__set__` on both bits -/
+theorem C20_bridge_set : setRows.length = 4 ∧ ∀ p ∈ setRows, modelSet p.1.1 p.1.2 = p.2 := by decide
+
+/-- `ObjSt.dbSet` = the real `Entity._db_set_`: UnrepeatableReadError exactly for a changed attribute with its read bit set;
+    otherwise `_dbvals_` takes the new value and `_vals_` too unless the write bit is set -/
+theorem C20_bridge_dbSet : dbSetRows.length = 10 ∧
+    ∀ p ∈ dbSetRows, modelDbSet p.1.1 p.1.2.1 p.1.2.2.1 p.1.2.2.2 = p.2 := by decide
+
+/-- `ObjSt.afterSave` = the real end of `_save_updated_` + `_update_dbvals_(False, …)` after a real flush, for every
+    (read bit, write bit, volatile) and for None as well as non-None values (None is not special after an UPDATE) -/
+theorem C20_bridge_save : saveRows.length = 12 ∧
+    ∀ p ∈ saveRows, modelSave p.1.1 p.1.2.1 p.1.2.2.1 = p.2 := by decide
+
+/-- `optCols` = the real `_construct_optimistic_criteria_` for int / float / float optimistic=True / int optimistic=False -/
+theorem C20_bridge_criteria : critRows.length = 8 ∧ ∀ p ∈ critRows, modelCrit p.1.1 p.1.2 = p.2 := by decide
+
+/-- `critCols` = the real exemptions of `_save_updated_`: no criteria for a non-optimistic session or a for_update object -/
+theorem C20_bridge_exempt : exemptRows.length = 4 ∧ ∀ p ∈ exemptRows, modelExempt p.1.1 p.1.2 = p.2 := by decide
+
+end Bridge
 
 /-! ### the hypotheses are satisfiable, the conclusions are not vacuous, the exclusions are necessary (concrete schedules) -/
 
